@@ -192,13 +192,39 @@ def r3(ctx):
     h = ctx.func(MOD + ".attempt_add_phase_information")
     hcfg = ctx.cfg(h)
     hal = util.params_of(h.node)[0]
-    ones = [n for n in hcfg.g.nodes if hcfg.kind(n) == "stmt" and isinstance(hcfg.ast(n), ast.Assign) and u(hcfg.ast(n).targets[0]) == "is_tagged" and isinstance(hcfg.ast(n).value, ast.Constant) and hcfg.ast(n).value.value in (1, True)]
-    ctx.require(len(ones) >= 2, "is_tagged = 1 sites not found in attempt_add_phase_information")
-    for a in ones:
-        for tag in TAGS:
-            doms = [d for d in _set_tag_nodes(hcfg, hal, tag) if hcfg.dominates(d, a)]
-            ok = bool(doms)
-            ctx.ob(h.qual, "tagged-implies-set:%s@%s" % (tag, hcfg.line(a) - h.node.lineno), ok, h.loc(hcfg.ast(a)), "is_tagged = 1 is dominated by set_tag(%r, ...)" % tag if ok else "a read can be reported as tagged without its %s tag having been set" % tag)
+    # every path on which the helper answers "tagged" (first returned value 1 / True) has set all three tags on the alignment
+    try:
+        hsums = pathfx.summaries(hcfg)
+    except OverflowError:
+        hsums = None
+    if not hsums:
+        ctx.ob(h.qual, "tagged-implies-set", None, h.loc(), "cannot enumerate the paths of attempt_add_phase_information")
+    else:
+        n_tagged = 0
+        undec = None
+        worst = {}
+        for ps in hsums:
+            rv = ps.returns()
+            if len(rv) != 1 or not isinstance(rv[0][1], ast.Tuple) or not rv[0][1].elts:
+                undec = "a path does not return a tuple"
+                continue
+            first = rv[0][1].elts[0]
+            if not isinstance(first, ast.Constant):
+                undec = "the first returned value `%s` is not a constant on a path" % u(first)[:40]
+                continue
+            if not first.value:
+                continue
+            n_tagged += 1
+            for tag in TAGS:
+                has = any(e_[0] == "call" and isinstance(e_[1].func, ast.Attribute) and e_[1].func.attr == "set_tag" and u(e_[1].func.value) == hal and e_[1].args and isinstance(e_[1].args[0], ast.Constant) and e_[1].args[0].value == tag for e_ in ps.effects)
+                if not has:
+                    worst.setdefault(tag, ps)
+        if undec and not worst:
+            ctx.ob(h.qual, "tagged-implies-set", None, h.loc(), undec)
+        else:
+            for tag in TAGS:
+                ok = tag not in worst and n_tagged >= 1
+                ctx.ob(h.qual, "tagged-implies-set:%s" % tag, ok, h.loc(), "on each of the %d paths that report the read as tagged, set_tag(%r, ...) was called on the alignment" % (n_tagged, tag) if ok else "a read can be reported as tagged without its %s tag having been set" % tag, hcfg.describe_path(worst[tag].path) if tag in worst else None)
     # which alignments may be tagged at all: decision table of ignore_read over its four flags
     ig = ctx.func(MOD + ".ignore_read")
     ap, tp = util.params_of(ig.node)[:2]
@@ -212,9 +238,9 @@ def r3(ctx):
     except ValueError as e:
         wrong, why = [None], "ignore_read is no longer a pure decision over %s (%s)" % (flags, e)
     ctx.ob(ig.qual, "only-mapped-primary-or-requested-supplementary-alignments-are-tagged", not wrong, ig.loc(), "over all 16 flag combinations ignore_read == unmapped or secondary or (supplementary and not tag_supplementary)" if not wrong else why + ": an alignment that must stay untagged gets the tags of a read of the same name (or the other way round)")
-    rets = [n for n in walk_function(h.node) if isinstance(n, ast.Return)]
-    ok = bool(rets) and all(isinstance(r.value, ast.Tuple) and u(r.value.elts[0]) == "is_tagged" for r in rets)
-    ctx.ob(h.qual, "returns-is_tagged-first", ok, h.loc(), "the helper returns is_tagged as first value" if ok else "the helper does not return is_tagged first")
+    # the first returned value is the tagged answer: a 0/1 constant on every path (checked above) and the caller unpacks it first
+    ok = bool(hsums) and all(len(ps.returns()) == 1 and isinstance(ps.returns()[0][1], ast.Tuple) and isinstance(ps.returns()[0][1].elts[0], ast.Constant) and ps.returns()[0][1].elts[0].value in (0, 1, True, False) for ps in hsums)
+    ctx.ob(h.qual, "returns-is_tagged-first", ok, h.loc(), "on every path the helper returns a 0/1 tagged answer as first value" if ok else "the helper does not return a 0/1 tagged answer first on every path")
 
 
 def r4(ctx):
@@ -303,8 +329,17 @@ def r4(ctx):
             ctx.ob(h.qual, "tag-value:%s=%s" % (tag, u(val)), ok, h.loc(n), "%s = %s" % (tag, u(val)) if ok else "%s is set to %s, expected %s" % (tag, u(val), want[tag]))
     # scoring: phase info layout and agreement test
     gv = ctx.func(MOD + ".get_variant_information")
-    pi = util.single_def(gv.node, "phase_info")
-    ok = pi is not None and isinstance(pi, ast.Tuple) and u(pi.elts[0]) == "int(phase.block_id)" and u(pi.elts[1]) == "phase.phase"
+    # what is stored per position: a subscript store into the returned map, or the value of a dict comprehension
+    rets_gv = [n for n in walk_function(gv.node) if isinstance(n, ast.Return) and isinstance(n.value, ast.Tuple) and n.value.elts]
+    mapname = u(rets_gv[0].value.elts[0]) if rets_gv else "vpos_to_phase_info"
+    stored = [util.resolve_locals(gv.node, s_.value) for s_ in util.store_sites(gv.node) if s_.kind == "subscript" and u(s_.target.value) == mapname and s_.value is not None]
+    md = util.single_def(gv.node, mapname)
+    if isinstance(md, ast.DictComp):
+        stored.append(md.value)
+    ok = len(stored) == 1 and isinstance(stored[0], ast.Tuple) and len(stored[0].elts) == 2
+    if ok:
+        e0, e1 = stored[0].elts
+        ok = isinstance(e0, ast.Call) and u(e0.func) == "int" and len(e0.args) == 1 and isinstance(e0.args[0], ast.Attribute) and e0.args[0].attr == "block_id" and isinstance(e1, ast.Attribute) and e1.attr == "phase" and u(e1.value) == u(e0.args[0].value)
     unp = [v for s, v in util.assignments_to(fi.node, "phasing") if isinstance(v, tuple)]
     ok = ok and len(unp) == 1 and unp[0][2] == 1 and "variantpos_to_phaseinfo[" in u(unp[0][1])
     ctx.ob(fi.qual, "phase-info-layout-agrees", ok, fi.loc(), "(block id, phase tuple) is stored per position and unpacked in the same order" if ok else "phase info tuple layout differs between get_variant_information and its use")
@@ -324,4 +359,4 @@ RULES = [
     ("C10.R3", "stale tags: HP/PS/PC defined on every path to the write", r3),
     ("C10.R4", "tie and empty rejection; tuple layouts; tag values", r4),
 ]
-FLOORS = {"C10.R1": 9, "C10.R2": 6, "C10.R3": 10, "C10.R4": 15}
+FLOORS = {"C10.R1": 9, "C10.R2": 6, "C10.R3": 8, "C10.R4": 15}
